@@ -49,6 +49,10 @@ impl Group for C11Sim {
             c("world backup|vh 0 g 0|rv 0|failw m scp 0 0"),
             c("world backup|scp 0 0|scp 0 0|failw m cpr 0 g"),
             c("world backup|vh 0 g 0|failw m sh 0"),
+            // the real protocol handler (world h)
+            c("world h|HVH 0 g 0|restart|HVH 0 g 1|restart|HRV 0|HVHO 0 g 2|restart|HVH -1 g 2"),
+            // handler composites
+            c("hvh 0 g 0|restart|rv 0|hvho 0 g 1|restart|hvh1o 0 g 2|ks 1000|restart|hvh1 0 g 0"),
             // a full channel map
             c("newch 1|newch 2|newch 3|newch 4|restart|newch 4|forget 2|newch 4|restart|newch 5"),
             // closing through either entry point must be durable
